@@ -245,6 +245,9 @@ def predictor_runs(nruns, seed):
                                      predictor_update_frequency=puf)
         if via_setter:
             isl.hall_of_fame = hof
+        if r % 4 == 1:
+            # what a SerialArchipelago does to every copy of its template island (and what a user may do by hand)
+            isl.regenerate_population()
         ngen = rng.randint(4, 9)
         for g in range(ngen):
             isl.evolve(1)
